@@ -964,7 +964,7 @@ func ruleAddrListener(c *Ctx, rule string) {
 		}
 		ex.Hooks.Exit = func(st *State, in ssa.Instruction) {
 			ret, ok := in.(*ssa.Return)
-			if !ok || len(ret.Results) != 2 || !isNilConst(ex.Resolve(st, ret.Results[1])) {
+			if !ok || len(ret.Results) != 2 || !isNilConst(ex.ResolveDeep(st, ret.Results[1])) {
 				return
 			}
 			zoneEmpty, _ := histEq(st, regexp.MustCompile(`^\$0\.Zone$`), `""`)
